@@ -150,10 +150,13 @@ class Impl:
                     return show(t.pop(k, 'default'))
                 return show(t.pop(k))
             if op == 'clone':
+                p = e.get('p', -1)
                 if self.kind == 'scope':
-                    self.sc[4] = self.sc[s].clone()
+                    kw = {} if p == -1 else {'parent': self.sc[p] if p else None}
+                    self.sc[4] = self.sc[s].clone(**kw)
                 else:
-                    self.t[4] = t.clone()
+                    kw = {} if p == -1 else {'parent': self.t[p] if p else None}
+                    self.t[4] = t.clone(**kw)
                 return 'none'
             if op in ('reparent', 'reparent_attr'):
                 p = e['p']
@@ -238,6 +241,7 @@ def random_event(rng, kind, parents):
         if op == 'clone':
             if e['s'] == 4 or 4 in parents:
                 continue
+            e['p'] = rng.choice([-1, -1, 0, 1, 2, 3])
         if op in ('reparent', 'reparent_attr'):
             if e['p'] == e['s'] or (e['p'] and e['s'] in chain(parents, e['p'])):
                 continue
